@@ -347,7 +347,13 @@ func races(r *rep.Run, paths map[string][]string, bound int) {
 	for _, k := range keys {
 		var prev []bstate
 		json.Unmarshal([]byte(k), &prev)
-		if prev[1].St != "none" { // the second branch does not take part: keep only source states that differ in branch 1
+		idleOthers := true // the other branches do not take part: keep only source states that differ in branch 1
+		for _, o := range prev[1:] {
+			if o.St != "none" {
+				idleOthers = false
+			}
+		}
+		if !idleOthers {
 			continue
 		}
 		for _, pr := range pairs {
